@@ -176,6 +176,7 @@ fn search_parallel(args: &HiArgs, mode: SearchMode) -> anyhow::Result<bool> {
     let stats = args.stats().map(std::sync::Mutex::new);
     let matched = AtomicBool::new(false);
     let searched = AtomicBool::new(false);
+    let broken_pipe = AtomicBool::new(false);
 
     let mut searcher = args.search_worker(
         args.matcher()?,
@@ -187,6 +188,7 @@ fn search_parallel(args: &HiArgs, mode: SearchMode) -> anyhow::Result<bool> {
         let stats = &stats;
         let matched = &matched;
         let searched = &searched;
+        let broken_pipe = &broken_pipe;
         let haystack_builder = &haystack_builder;
         let mut searcher = searcher.clone();
 
@@ -214,6 +216,7 @@ fn search_parallel(args: &HiArgs, mode: SearchMode) -> anyhow::Result<bool> {
             if let Err(err) = bufwtr.print(searcher.printer().get_mut()) {
                 // A broken pipe means graceful termination.
                 if err.kind() == std::io::ErrorKind::BrokenPipe {
+                    broken_pipe.store(true, Ordering::SeqCst);
                     return WalkState::Quit;
                 }
                 // Otherwise, we continue on our merry way.
@@ -226,6 +229,14 @@ fn search_parallel(args: &HiArgs, mode: SearchMode) -> anyhow::Result<bool> {
             }
         })
     });
+    // As in the single threaded case, bubble a broken pipe up so that the exit
+    // status is the one of a graceful termination (and not "no match", which
+    // is what we'd report if what could not be written did not come from a
+    // match, e.g., with --passthru).
+    if broken_pipe.load(Ordering::SeqCst) {
+        let err = std::io::Error::from(std::io::ErrorKind::BrokenPipe);
+        return Err(err.into());
+    }
     if args.has_implicit_path() && !searched.load(Ordering::SeqCst) {
         eprint_nothing_searched();
     }
